@@ -544,6 +544,14 @@ def check_hash(prog: Program, res: Result, fi, cls_name: str) -> None:
             bases = tuple(_comp_images(x, s) for x in arg.elts)
             got[p] = bases
             want = {f"{s}.atoms", f"{s}._inverted_atoms()"}
+            if None in bases and set(b for b in bases if b) <= want:
+                # one component is built in a way the rule does not read
+                # (composed index tables, cached orbits): not a verdict
+                res.unrecognised("R-HASH-TABLE", cell, fi.loc(),
+                                 f"pair component `{norm(arg.elts[bases.index(None)], 80)}` "
+                                 "is not an orbit comprehension over "
+                                 "PERMUTATION_GROUP")
+                continue
             if set(bases) != want:
                 res.bad("R-HASH-TABLE", f"{fi.short}[{p}]", fi.loc(),
                         f"{cell}: pair components must be the orbit of "
